@@ -196,8 +196,6 @@ def make_shared(kind, base, names):
     if kind in ("se", "all"):
         sh["starts"] = [r[b["mid"][0]]]
         sh["ends"] = [r[b["mid"][1]]]
-    if kind in ("sopts", "all", "none"):
-        pass
     return sh
 
 
